@@ -1,21 +1,21 @@
 /-
-  Model/C13.lean — equality and hashing.
+  Model/C13.lean — equality and hashing.   (file:line references are to /repo at c59055f)
 
   SPEC layer: two bitstrings are equal when their bit lists are equal; the hash key of a bitstring is a
               function of its bit list only (`hashKey`), `toBytes` = zero-padded big-endian bytes.
-  ALG layer : `Bits.__eq__` / `__ne__` (bits.py:299-318) through `Bits._create_from_bitstype`
-              (bits.py:127-133) and `_setauto_no_length_or_offset` (bits.py:492-516), `BitStore.__eq__`
-              (bitstore.py:115-116: compares the raw `_bitarray`), `Bits.__hash__` (bits.py:475-489: whole value up to
+  ALG layer : `Bits.__eq__` / `__ne__` (bits.py:304-323) through `Bits._create_from_bitstype`
+              (bits.py:128-134) and `_setauto_no_length_or_offset` (bits.py:499-523), `BitStore.__eq__`
+              (bitstore.py:112-113: compares the raw `_bitarray`), `Bits.__hash__` (bits.py:475-490: whole value up to
               T bits, otherwise `self._absolute_slice(0, A) + self._absolute_slice(len(self) - B, len(self))`
               — mode-independent since fix 42091e9; T = 2000, A = B = 800 in the source — PARAMETERS here, the
               harness extracts the literals from the source on every run), `BitStore.tobytes`, `__len__`
-              honouring `modified_length`, `BitStore.frombuffer` (bitstore.py:63-81), the slicing the hash uses
-              (`Bits._absolute_slice` bits.py:1026-1034, `BitStore.getslice_msb0` bitstore.py:229-234),
-              `Bits.__add__` (bits.py:200-215), `BitArray.__hash__ = None` (bitarray_.py:73), the ordering
-              methods (bits.py:187-198).
+              honouring `modified_length`, `BitStore.frombuffer` (bitstore.py:60-78), the slicing the hash uses
+              (`Bits._absolute_slice` bits.py:1052-1060, `BitStore.getslice_msb0` bitstore.py:226-231),
+              `Bits.__add__` (bits.py:205-220), `BitArray.__hash__ = None` (bitarray_.py:73), the ordering
+              methods (bits.py:192-203).
 
   A `Store` keeps what the code keeps: the raw bitarray and `modified_length`.  Every store is big-endian
-  (`BitStore.__init__` converts a source bitarray with `endian='big'`, bitstore.py:46-51, fix 0aafa20; `frombytes`
+  (`BitStore.__init__` converts a source bitarray with `endian='big'`, bitstore.py:43-48, fix 0aafa20; `frombytes`
   and `frombuffer` create big-endian bitarrays), so `tobytes` has one meaning.
 -/
 import BitstringModel.Model.Basic
@@ -80,7 +80,7 @@ structure Store where
   modLen : Option Nat := none
   deriving Repr, DecidableEq
 
-/-- `BitStore.__len__` (bitstore.py:283-284). -/
+/-- `BitStore.__len__` (bitstore.py:282-283). -/
 def Store.len (s : Store) : Nat :=
   match s.modLen with
   | some m => m
@@ -91,23 +91,23 @@ def rawSlice (l : Bits) (start stop : Option Int) : Bits :=
   (l.drop (Py.sliceIndices start stop 1 l.length).1.toNat).take
     ((Py.sliceIndices start stop 1 l.length).2.1 - (Py.sliceIndices start stop 1 l.length).1).toNat
 
-/-- The logical content (`s.bin`): `getslice_msb0(None, None)` (bitstore.py:229-234). -/
+/-- The logical content (`s.bin`): `getslice_msb0(None, None)` (bitstore.py:226-231). -/
 def Store.bits (s : Store) : Bits :=
   match s.modLen with
   | some m => rawSlice s.raw (some (Py.sliceIndices none none 1 m).1) (some (Py.sliceIndices none none 1 m).2.1)
   | none => rawSlice s.raw none none
 
-/-- `BitStore.tobytes` (bitstore.py:86-89). -/
+/-- `BitStore.tobytes` (bitstore.py:83-86). -/
 def Store.tobytes (s : Store) : List Nat :=
   match s.modLen with
   | some m => toBytes (rawSlice s.raw none (some (m : Int)))
   | none => toBytes s.raw
 
-/-- `BitStore.__eq__` (bitstore.py:115-116): `self._bitarray == other._bitarray`
+/-- `BitStore.__eq__` (bitstore.py:112-113): `self._bitarray == other._bitarray`
     (bitarray equality: same length, same bit at every index). -/
 def Store.eq (a b : Store) : Bool := decide (a.raw = b.raw)
 
-/-- `BitStore(bitarray)` / `_copy()` (bitstore.py:46-52, 206-208): a fresh store around a copy of the bitarray. -/
+/-- `BitStore(bitarray)` / `_copy()` (bitstore.py:43-48, 203-205): a fresh store around a copy of the bitarray. -/
 def Store.copyRaw (s : Store) : Store := { raw := s.raw, modLen := none }
 
 /-- `BitStore.frombytes`: big-endian bits of each byte. -/
@@ -115,7 +115,7 @@ def bytesToBits (b : List Nat) : Bits := b.flatMap (natToBits 8)
 
 def Store.frombytes (b : List Nat) : Store := { raw := bytesToBits b }
 
-/-- `BitStore.frombuffer(buffer, length)` (bitstore.py:63-81).  When only part of the buffer is wanted the part
+/-- `BitStore.frombuffer(buffer, length)` (bitstore.py:60-78).  When only part of the buffer is wanted the part
     is read into memory (fix 39ce472); in every case `modified_length` is reset to None afterwards (fix ccb64df),
     so no constructor leaves a `modified_length` behind — the field and the code that honours it
     (`__len__`, `tobytes`, the msb0 slices) still exist and stay modelled. -/
@@ -142,7 +142,7 @@ instance (s : Store) : Decidable s.wf := by
 
 /-! ### slicing as `__hash__` does it -/
 
-/-- `BitStore.getslice_msb0(start, stop)` (bitstore.py:229-234): indices are first normalised against
+/-- `BitStore.getslice_msb0(start, stop)` (bitstore.py:226-231): indices are first normalised against
     `modified_length`, then the raw bitarray is sliced. -/
 def Store.getsliceMsb0 (s : Store) (start stop : Option Int) : Store :=
   match s.modLen with
@@ -150,14 +150,14 @@ def Store.getsliceMsb0 (s : Store) (start stop : Option Int) : Store :=
     { raw := rawSlice s.raw (some (Py.sliceIndices start stop 1 m).1) (some (Py.sliceIndices start stop 1 m).2.1) }
   | none => { raw := rawSlice s.raw start stop }
 
-/-- `Bits._absolute_slice(start, end)` (bits.py:1026-1034): msb0 numbering whatever the option says; an empty
+/-- `Bits._absolute_slice(start, end)` (bits.py:1052-1060): msb0 numbering whatever the option says; an empty
     object when `end == start`; `assert start < end` otherwise. -/
 def absoluteSlice (s : Store) (start stop : Int) : Except Err Store :=
   if stop = start then .ok { raw := [] }
   else if ¬ (start < stop) then .error (.internal "AssertionError")
   else .ok (s.getsliceMsb0 (some start) (some stop))
 
-/-- `Bits.__add__` on two objects of the same class (bits.py:200-215), store level: copy the longer operand,
+/-- `Bits.__add__` on two objects of the same class (bits.py:205-220), store level: copy the longer operand,
     add the other on the proper side. -/
 def Store.add (a b : Store) : Store :=
   if b.len ≤ a.len then
@@ -231,7 +231,7 @@ def digitsToBits (w : Nat) : List Char → Option Bits
 
 def unmodelled : Err := .internal "unmodelled-string"
 
-/-- One token (bitstore_helpers.py:37-67, 247-259; utils.py:21 `LITERAL_RE`): a literal `0b/0x/0o` + digits;
+/-- One token (bitstore_helpers.py:37-67, 251-263; utils.py:21 `LITERAL_RE`): a literal `0b/0x/0o` + digits;
     the value is lower-cased and underscores are removed (`tidy_input_string`).  A wrong digit is a
     `CreationError` (= ValueError).  Every other token form (dtype tokens, factors, brackets, struct codes, and
     values containing the prefix letter again, which `str.replace` would delete) is outside the modelled
@@ -270,7 +270,7 @@ def strToBits (s : List Char) : Except Err Bits :=
   if s.contains '(' ∨ s.contains '*' then .error unmodelled else
   tokensToBits (splitComma s)
 
-/-- `Bits._create_from_bitstype(x)._bitstore` (bits.py:127-133, 492-516). -/
+/-- `Bits._create_from_bitstype(x)._bitstore` (bits.py:128-134, 499-523). -/
 def promote : Operand → Except Err Store
   | .bitstring o => .ok o.store
   | .str s => (strToBits s).map fun b => { raw := b }
@@ -285,14 +285,14 @@ def promote : Operand → Except Err Store
   | .integral => .error .type
   | .other => .error .type
 
-/-- `Bits.__eq__` (bits.py:299-309): `TypeError → False`; any other exception propagates. -/
+/-- `Bits.__eq__` (bits.py:304-314): `TypeError → False`; any other exception propagates. -/
 def eqAlg (a : Obj) (x : Operand) : Except Err Bool :=
   match promote x with
   | .ok st => .ok (a.store.eq st)
   | .error .type => .ok false
   | .error e => .error e
 
-/-- `Bits.__ne__` (bits.py:311-318): `not self.__eq__(bs)`. -/
+/-- `Bits.__ne__` (bits.py:316-323): `not self.__eq__(bs)`. -/
 def neAlg (a : Obj) (x : Operand) : Except Err Bool :=
   match eqAlg a x with
   | .ok b => .ok (!b)
@@ -301,13 +301,13 @@ def neAlg (a : Obj) (x : Operand) : Except Err Bool :=
 /-- `==` between two bitstring objects. -/
 def eqObj (a b : Obj) : Bool := a.store.eq b.store
 
-/-- The ordering methods (bits.py:187-198) return `NotImplemented` for every operand, so `<`, `>`, `<=`, `>=`
+/-- The ordering methods (bits.py:192-203) return `NotImplemented` for every operand, so `<`, `>`, `<=`, `>=`
     between bitstrings raise TypeError (both reflections decline). -/
 def orderAlg (_a _b : Obj) : Except Err Bool := .error .type
 
 /-! ## ALG: `__hash__` -/
 
-/-- `Bits.__hash__` (bits.py:475-489) — what the built-in `hash` is applied to; `BitArray.__hash__ = None`
+/-- `Bits.__hash__` (bits.py:475-490) — what the built-in `hash` is applied to; `BitArray.__hash__ = None`
     (bitarray_.py:73; `BitStream` inherits it before `Bits.__hash__` in its MRO) makes `hash()` a TypeError.
     `_lsb0` is the value of `bitstring.options.lsb0` while `hash()` runs: since fix 42091e9 nothing on this path
     (`len`, `tobytes`, `_absolute_slice` → `getslice_msb0`, `__add__`) dispatches on it, so the transcription does
